@@ -38,7 +38,7 @@ class C01(Scenario):
                    "checks partition invariance, identity, commutativity and associativity without the model, sums within tolerance",
                    "operands are never touched after a merge (statement-minimal)"]
     expected_faults = ["retry", "reorder", "regroup", "empty_partial"]
-    expected_probes = ["disjoint_sparse_merge", "empty_side_merge", "nan_extreme_merge"]
+    expected_probes = ["disjoint_sparse_merge", "empty_side_merge", "nan_extreme_merge", "vectorised_executor"]
 
     def generate(self, rng, tier, profile):
         big = tier == "thorough"
@@ -60,6 +60,7 @@ class C01(Scenario):
         steps = []
         sch = Sched(s)
         nh = [0]
+        has_q = any(nd["p"] in specmod.HAS_Q for _, nd in specmod.walk(sp))
 
         def newh():
             nh[0] += 1
@@ -72,7 +73,12 @@ class C01(Scenario):
             ne[0] += 1
             name = "E%d" % ne[0]
             execs[name] = {"chunk": chunk, "cur": 0, "h": None, "speed": s.pick([1, 1, 2, 3, 7, 20]),
-                           "inc": s.chance(0.3), "crash": (f.randrange(len(chunk) + 1) if f.chance(0.15) else None)}
+                           "inc": s.chance(0.3), "crash": (f.randrange(len(chunk) + 1) if f.chance(0.15) else None),
+                           # some executors fill their chunk in vectorised batches (fill.numpy with a weight array)
+                           "vec": has_q and regime == "dyadic" and s.chance(0.2), "box": s.pick(["dict", "frame", "rec"])}
+            if execs[name]["vec"] and s.chance(0.4):
+                for i_ in chunk:
+                    ws[i_] = s.pick(specmod.NEAR_ONE_WEIGHTS)  # weights a "they are all 1 anyway" shortcut would misjudge
             sch.after(delay, name)
 
         for c in chunks:
@@ -99,7 +105,14 @@ class C01(Scenario):
                     else:
                         start(rest, s.randrange(4))
                     continue
-                if e["cur"] < len(e["chunk"]):
+                if e["cur"] < len(e["chunk"]) and e["vec"]:
+                    nb_ = s.pick([1, 2, 4, 8])
+                    idx = e["chunk"][e["cur"]: e["cur"] + nb_]
+                    e["cur"] += len(idx)
+                    steps.append({"op": "fillbatch", "obj": e["h"], "recs": idx, "ws": [specmod.enc_float(ws[i_]) for i_ in idx], "box": e["box"],
+                                  "actor": actor, "t": t})
+                    sch.after(e["speed"], actor)
+                elif e["cur"] < len(e["chunk"]):
                     i = e["chunk"][e["cur"]]
                     e["cur"] += 1
                     via = "increment" if (e["inc"] and ws[i] == 1.0) else "fill"
@@ -140,7 +153,8 @@ class C01(Scenario):
             steps.append({"op": "ident", "obj": pending[0], "side": s.pick(["l", "r"]), "actor": "R", "t": sch.now})
         if pending:
             steps.append({"op": "final", "obj": pending[0], "actor": "D", "t": sch.now})
-        return {"spec": sp, "records": [specmod.enc_record(r) for r in recs], "steps": steps, "regime": regime}
+        return {"spec": sp, "records": [specmod.enc_record(r) for r in recs], "steps": steps, "regime": regime,
+                "vectorised": any(st_["op"] == "fillbatch" for st_ in steps)}
 
     # ------------------------------------------------------------------
     def _expect(self, w, doc, cover, what, step, nmerge):
@@ -148,16 +162,25 @@ class C01(Scenario):
             return  # non-dyadic edges: the exact model is not consulted; partition invariance below still is
         recs = [w.records[i] for i, _ in cover]
         m = model.model_doc(w.specs[0], [(w.records[i], wt) for i, wt in cover])
+        doc = self._content(w, doc)
         d = observe.doc_diff(doc, m, tol_for(recs, len(cover) + nmerge))
         if d is not None:
             raise self.violation(d[1], what, "content:%s" % d[2],
                                  "%s result differs from the reference model at %s (%s.%s)" % (what, d[0], d[1], d[2]),
                                  step, {"observed": doc, "expected": m})
 
+    def _content(self, w, doc):
+        """with vectorised executors in the run, sparse bins / categories whose whole subtree holds zero weight do not count
+        (fill.numpy creates one for every value present in a batch; C03's statement allows that)"""
+        if not w.case.get("vectorised"):
+            return doc
+        return {"type": doc["type"], "data": observe.drop_empty(doc["type"], doc["data"]), "version": doc["version"]}
+
     def _same(self, w, a, b, what, step, n, label):
         recs = w.records
         tol = tol_for(recs, n)
         tol.sums = w.case.get("regime", "dyadic") != "dyadic"
+        a, b = self._content(w, a), self._content(w, b)
         d = observe.doc_diff(a, b, tol)
         if d is not None:
             raise self.violation(d[1], what, "%s:%s" % (label, d[2]),
@@ -202,6 +225,27 @@ class C01(Scenario):
                 self._lib(o, "fill", si)
                 w.meta[st["obj"]]["cover"].append((st["rec"], wt))
                 filled_execs.add(st.get("actor"))
+            elif op == "fillbatch":
+                if not w.has(st["obj"]) or any(i >= len(w.records) for i in st["recs"]) or not hasattr(w.heap[st["obj"]].fill, "numpy"):
+                    continue
+                import numpy as np
+
+                from ..kernel import make_box
+
+                h = w.heap[st["obj"]]
+                if any(w.records[i]["s"] is None or w.records[i]["s"] != w.records[i]["s"] for i in st["recs"]):
+                    # a column of strings cannot carry None / NaN: this batch is filled row by row
+                    for i, x in zip(st["recs"], st["ws"]):
+                        self._lib(call(h.fill, w.records[i], specmod.dec_float(x)), "fill", si)
+                        w.meta[st["obj"]]["cover"].append((i, specmod.dec_float(x)))
+                    continue
+                wa = np.array([float(specmod.dec_float(x)) for x in st["ws"]], dtype=np.float64)
+                o = call(h.fill.numpy, make_box(w.records, st["recs"], st["box"]), wa)
+                self._lib(o, "fillnumpy", si)
+                for i, x in zip(st["recs"], st["ws"]):
+                    w.meta[st["obj"]]["cover"].append((i, specmod.dec_float(x)))
+                filled_execs.add(st.get("actor"))
+                w.bump("probe_vectorised_executor")
             elif op == "crash":
                 if w.has(st["obj"]):
                     del w.heap[st["obj"]]
